@@ -2586,7 +2586,9 @@ func addrKey(st *ConcState, addr ssa.Value) string {
 	for k := 0; k < 16; k++ {
 		switch x := v.(type) {
 		case *ssa.FieldAddr:
-			path = append([]string{fieldName(x.X.Type(), x.Field)}, path...)
+			if fnm := fieldName(x.X.Type(), x.Field); fnm != "" { // (a transparent grouping field adds no step)
+				path = append([]string{fnm}, path...)
+			}
 			v = x.X
 			continue
 		case *ssa.ChangeType:
